@@ -72,6 +72,8 @@ def gen_cases(tier, seed):
         yield {"kind": "forward-slit", "seed": r.randrange(1 << 30), "entry": ["raw", "isotherm"][i % 2]}
     models = ["HK", "HK-CY", "RY", "RY-CY"]
     geos = ["slit", "cylinder", "sphere"]
+    for i in range(16 if tier == "quick" else 400):
+        yield {"kind": "routing", "seed": r.randrange(1 << 30), "model": models[i % 4], "geometry": ["slit", "sphere", "slit", "cylinder"][(i // 4) % 4] if models[i % 4].startswith("HK") else ["slit", "sphere"][(i // 4) % 2]}
     m = 60 if tier == "quick" else 3000
     for i in range(m):
         model, geo = models[i % 4], geos[(i // 4) % 3]
@@ -343,6 +345,44 @@ def _run_residual(case, ctx):
     if [1.0, 2.0][pick[0]] != expected_factor:
         ctx.violation("%s/%s/width-definition" % (model, geo), "effective width is not L - d (slit) / 2L - d (cylinder, sphere)", factor=[1.0, 2.0][pick[0]])
     _check_public(ctx, model, geo, solved, widths, dist, cum, loading[:len(solved)], M, rho)
+
+
+def _run_routing(case, ctx):
+    """The isotherm entry point must solve the equation of the model it was asked for."""
+    import pygaps
+    from pygaps.characterisation import psd_micro as pm
+    r = gen.rng(case["seed"], "rt")
+    model, geo = case["model"], case["geometry"]
+    ads = _adsorbate_model(r, nitrogen=True)
+    mat_arg, mat = _material(r)
+    T = 77.355
+    n = r.randint(5, 10)
+    p = numpy.array(gen.increasing(r, n, 1e-6, 0.15, log=True))
+    loading = numpy.cumsum(numpy.array([r.uniform(0.05, 1.0) for _ in range(n)]))
+    iso = pygaps.PointIsotherm(pressure=list(p), loading=list(loading), branch="ads", material="verif-c17", adsorbate="nitrogen", temperature=T, pressure_mode="relative", pressure_unit=None,
+                               **{k: v for k, v in gen.DEFAULT_UNITS.items() if not k.startswith("pressure")})
+    a = pygaps.Adsorbate.find("nitrogen")
+    adsd = dict(ads, liquid_density=a.liquid_density(T), adsorbate_molar_mass=a.molar_mass())
+    res = _call(pm.psd_microporous, iso, psd_model=model, pore_geometry=geo, material_model=mat_arg, adsorbate_model=adsd, p_limits=(None, None))
+    ctx.case(["routing", model, geo, case["seed"]])
+    if res[0] != "ok":
+        ctx.violation("psd_microporous/%s/%s/raises" % (model, geo), "the isotherm entry point raised", exc=res[1])
+        return
+    ctx.count("routing", model + "/" + geo)
+    if not _CAPTURE:
+        ctx.violation("solver-hook/not-reached", "the analysis returned but the solver hook saw nothing", model=model, geo=geo)
+        return
+    if _CAPTURE[-1]["cy"] != model.endswith("CY"):
+        ctx.violation("psd_microporous/%s/cheng-yang-term-%s" % (model, "missing" if model.endswith("CY") else "applied"), "the equation solved is not the one of the requested model (Cheng-Yang correction)", model=model, geo=geo)
+        return
+    fn = pm.psd_horvath_kawazoe if model.startswith("HK") else pm.psd_horvath_kawazoe_ry
+    direct = _call(fn, p, loading, T, geo, adsd, mat, model.endswith("CY"))
+    if direct[0] == "ok":
+        same = all(numpy.allclose(numpy.asarray(x, dtype=float), numpy.asarray(y, dtype=float), rtol=1e-9, atol=1e-12) for x, y in zip(
+            (res[1]["pore_widths"], res[1]["pore_distribution"], res[1]["pore_volume_cumulative"]), direct[1]))
+        if not same:
+            ctx.violation("psd_microporous/%s/differs-from-low-level" % model, "the isotherm entry point and the low-level function of the requested model disagree", model=model, geo=geo)
+    _check_capture(ctx, model, geo)
 
 
 def finalize(ctx):
